@@ -195,6 +195,20 @@ def run():
             chk.violation("RateMap(position=%s, rate=%s) accepted" % (p, r), dict(position=p, rate=[str(x) for x in r]), signature="ctor")
         except ValueError:
             pass
+    # uniform(L, r) is the one-interval map; a stepped slice is refused
+    for sl in (1, 3):
+        for r in (0, 1, 3):
+            u = tskit.RateMap.uniform(sl * T, r * RS)
+            o = dict(pos=[0, sl], rate=[r], cum=[r * t for t in range(sl + 1)], idx=[0] * sl, kspan=sl)
+            bad = compare(u, o, rng)
+            if bad:
+                chk.violation("RateMap.uniform(%s, %s): %s expected %s got %s" % ((sl * T, r * RS) + bad[0]), dict(map=o, diverged=bad),
+                              signature="uniform")
+    try:
+        real_map(recs[-1]["map"])[0:T:1]
+        chk.violation("a stepped slice was accepted", dict(map=recs[-1]["map"]), signature="step")
+    except TypeError:
+        pass
     # binding self-test: one expected value changed; the replay must diverge
     tot = rej = 0
     picks = [rec for rec in recs if len(rec["map"]["rate"]) >= 2]
